@@ -7,8 +7,12 @@ import vlib
 def run(ctx):
     thorough = ctx.tier == "thorough"
     ctx.assumptions += [
-        "the implementation cannot be driven into a chosen slice/U-turn pattern on a general target, so its own executions are "
+        "a whole transition cannot be driven into a chosen slice/U-turn pattern (the momentum is drawn inside), so transitions of real runs are "
         "validated (impl -> spec); NutsTree.tla itself is model-checked exhaustively over ALL oracle patterns to tree depth 2 (quick) / 3 (thorough)",
+        "build_tree CAN be driven (spec -> impl, Replay_NutsTree.tla): on a scripted target whose first coordinate is the trajectory offset, with exact "
+        "dyadic momenta/positions, every script (slice class, divergence, momentum per offset) to depth 1 (quick) / 2 (thorough) and LCG-sampled scripts "
+        "to depth 3 / 4; (n', s', n_alpha, alpha') must equal the specification's, the candidate must be one the specification can return; "
+        "WHICH admissible candidate is returned (the uniform draws inside build_tree) is not controlled: 6 generator seeds per script",
         "trajectory points are identified by the bit pattern of the logged (position, momentum); every leaf is re-integrated with the "
         "harness's own leapfrog and closed-form gradient (tolerance 1e-7 f64, 5e-4 f32); coinciding points are not asserted",
         "uniforms are quantised to 2^-16 with a margin of 2 quanta; U-turn products within 1e-4 of zero and slice/divergence "
@@ -17,6 +21,27 @@ def run(ctx):
     r = ctx.tlc("NutsTree", cfg="NutsTree_t.cfg" if thorough else "NutsTree_q.cfg", workers=8, timeout=3400, xmx="24g")
     ctx.require_ok(r, "NutsTree")
     ctx.tlc("NutsTree", cfg="NutsTree_neg.cfg", workers=4, expect_violation="UniformWithinSubtree")
+    # spec -> impl: build_tree on scripted targets
+    g = ctx.tlc("Replay_NutsTree", cfg="Replay_NutsTree_t.cfg" if thorough else "Replay_NutsTree_q.cfg", workers=8, timeout=3000, coverage=False)
+    ctx.require_ok(g, "Replay_NutsTree")
+    rows = g.tagged("REPLAY")
+    if len(rows) < 2000:
+        raise vlib.ToolError("Replay_NutsTree produced %d results" % len(rows))
+    rr = ctx.harness(["c03", "replay", ctx.write_ndjson("bt_cases.ndjson", rows)], timeout=3000)[-1]
+    ctx.cov["evaluations"] += rr["evaluations"]
+    ctx.cov["traces_replayed_into_impl"] = ctx.cov.get("traces_replayed_into_impl", 0) + rr["cases"]
+    ctx.cov["build_tree_replay"] = {k: rr[k] for k in ("cases", "evaluations", "full_depth_trees", "stopped_by_uturn", "cases_with_two_candidates_seen")}
+    if rr["full_depth_trees"] == 0 or rr["stopped_by_uturn"] == 0 or rr["cases_with_two_candidates_seen"] == 0:
+        raise vlib.ToolError("build_tree replay is vacuous: %s" % ctx.cov["build_tree_replay"])
+    for m in rr["bad"]:
+        c = m["case"]
+        ctx.violation("build-tree v=%s j=%s p0=%s lev=%s pp=%s" % (c["v"], c["j"], c["p0"], c["lev"], c["pp"]),
+                      "build_tree on the scripted target: %s" % m["why"], {"direction": "replay", "spec": "Replay_NutsTree", "rows": m["rows"], "mismatch": m})
+    # binding self-test: a script whose expected n' is off by one must be reported
+    c0 = next(r_ for r_ in rows if r_["j"] == 1 and r_["n"] == 2)
+    wrong = [dict(r_, n=r_["n"] - 1) for r_ in rows if (r_["v"], r_["j"], r_["p0"], r_["lev"], r_["pp"]) == (c0["v"], c0["j"], c0["p0"], c0["lev"], c0["pp"])]
+    rs = ctx.harness(["c03", "replay", ctx.write_ndjson("bt_self.ndjson", wrong)])[-1]
+    ctx.selftest("replay: expected n' of a scripted tree lowered by one", len(rs["bad"]) > 0)
     d = ctx.path("nuts")
     res = ctx.harness(["c03", "record", "--seed", ctx.seed, "--dir", d] + (["--thorough"] if thorough else []), timeout=3000)[-1]
     jobs = res["jobs"]
@@ -97,7 +122,7 @@ def run(ctx):
         okc, _, _ = ctx.validate_trace("Trace_NutsTree", ctx.write_ndjson("nuts_c2.ndjson", evs[: i + 1]))
         ctx.selftest("trace: a candidate accepted from a subtree that stopped", not okc)
     ctx.cov["rule"] = ("NutsTree.tla: every oracle pattern (slice, divergence, U-turn, random choices) to the configured depth, invariants P1/P2/extent/counts/uniform "
-                       "selection (wrong merge weight = negative control); traces: Gaussians dim 1..8 with random precision, library Gaussian and Rosenbrock, funnel, "
+                       "selection (wrong merge weight = negative control); build_tree replayed on scripted targets (Replay_NutsTree.tla); traces: Gaussians dim 1..8 with random precision, library Gaussian and Rosenbrock, funnel, "
                        "steep divergent, half-line (NaN region), forced tiny/huge step sizes (tree depth up to 10), f32 and f64; non-trivial = transitions that moved")
     ctx.cov["exhaustive"] = False
 
@@ -107,6 +132,11 @@ def replay(ctx, path):
     if "trace" in body:
         ok, _, _ = ctx.validate_trace("Trace_NutsTree", ctx.write_ndjson("t.ndjson", body["trace"]))
         if not ok:
+            ctx.violation(body["key"], body["what"], body)
+    elif "rows" in body:
+        rs = ctx.harness(["c03", "replay", ctx.write_ndjson("bt_replay.ndjson", body["rows"])])[-1]
+        ctx.cov["evaluations"] += rs["evaluations"]
+        if rs["bad"]:
             ctx.violation(body["key"], body["what"], body)
     else:
         raise vlib.ToolError("re-run: python3 bin/check C03 --tier quick")
